@@ -320,8 +320,12 @@ def run(ctx, rep):
 
     # ---------------- X2 FAT32 mask agreement
     n_x2 = 0
+    # provided methods of the trait are judged in their FAT32 instance (Self = Fat<u32>): the shared body then runs on
+    # 32-bit words whose top nibble is reserved
+    shared32 = {i['fn'] for i in facts.instances if i['fn'].startswith('fatfs::table::FatTrait::') and
+                i['args'].lstrip('[').startswith('fatfs::table::Fat<u32>')}
     for fn in fat:
-        if not (fn.impl_trait == 'fatfs::table::FatTrait' and fn.self_ty == 'fatfs::table::Fat<u32>'):
+        if not ((fn.impl_trait == 'fatfs::table::FatTrait' and fn.self_ty == 'fatfs::table::Fat<u32>') or fn.name in shared32):
             continue
         short = fn.name.rsplit('::', 1)[-1]
         if short not in ('get', 'find_free', 'count_free'):
@@ -345,6 +349,8 @@ def run(ctx, rep):
             # only tests whose operand is the entry value itself (not a flag derived through a call)
             n_x2 += 1
             ok = ('const', MASK28) in toks and ('op', 'BitAnd') in toks
+            if not ok and fn.name in shared32 and ('op', 'BitAnd') in toks and any(tk[0] == 'constpath' for tk in toks):
+                ok = True  # masked with a per-width associated constant (its value is judged by X1 through `get`)
             rep.oblige('X2', '%s|bb%d' % (fn.name, bi), ok=ok, nontrivial=True,
                        sample={'fn': fn.name, 'at': fn.loc(t['span']), 'masked': ok})
             if not ok:
